@@ -71,7 +71,9 @@ func init() {
 			}
 			b := explore.Bounds{Preempt: pb, Dev: 1, POR: true}
 			c.DFSBoth("c09/io-server/"+pl, b, 1)
-			c.DFSBoth("c09/io-server-bad/"+pl, b, 1)
+			if !c.Quick() || pl == "small" || pl == "lf" || pl == "65537" {
+				c.DFSBoth("c09/io-server-bad/"+pl, b, 1) // quick tier: three payload classes
+			}
 			c.DFSBoth("c09/io-client/"+pl, b, 1)
 			c.DFS("c09/post-sse/"+pl, explore.Bounds{Preempt: 1, Dev: 1, POR: true})
 			c.DFSBoth("c09/ls-push/"+pl, b, 1) // (two writers: cheap enough for every class)
